@@ -533,6 +533,11 @@ def check_real(shells, convs, with_eri, rng, viols, errs, tag):
             for Tn, nm in ((Tnear, "near-identity"), (np.eye(nf), "identity")):
                 tn = cm.call(fn, typed, transform=Tn)
                 judge(tn, apply(Tn, t, axes), "%s with a %s transform vs T applied to every basis index" % (name, nm), "transform_" + nm.replace("-", "_"))
+            if len(axes) <= 2:
+                # complex orbital coefficients: T (not its conjugate) is applied to EVERY basis index
+                Tc = T + 1j * np.roll(T, 1, axis=0) * 0.7
+                tc = cm.call(fn, typed, transform=Tc)
+                judge(tc, apply(Tc, t, axes), "%s with a complex transform vs T applied to every basis index" % name, "transform_complex")
         if convs and any(cv != (None, None) for cv in convs):
             d = cm.call(fn, dflt)
             if not isinstance(d, cm.Raised):
